@@ -1,12 +1,15 @@
 /-
-C16 — property theorems about the model in `NipyVerif.Model.C16`.
+C16 — property theorems about the model in `NipyVerif.Model.C16`
+(compiled numeric kernels equal their definitions).
 -/
 import NipyVerif.Lemmas.C16
 
 namespace NipyVerif.C16
 
-/-- BLAS wrappers, gemm: the flag/operand swap handed to the column-major routine
-    computes the row-major `alpha * op(A) * op(B) + beta * C`, for all four transpose flags. -/
+/-! ## BLAS wrappers: the row-major → column-major flag tables -/
+
+/-- gemm: the flag/operand swap handed to the column-major routine computes the row-major
+    `alpha * op(A) * op(B) + beta * C`, for all four transpose-flag combinations. -/
 theorem blas_rowmajor_gemm (ta tb : Trans) (al be : Rat) (A B C : Mat) (i j : Nat) :
     (fffGemm ta tb al A B be C).get i j =
       al * sumTo (match tb with | .N => B.r | .T => B.c)
@@ -14,5 +17,182 @@ theorem blas_rowmajor_gemm (ta tb : Trans) (al be : Rat) (A B C : Mat) (i j : Na
   cases ta <;> cases tb <;>
     simp only [fffGemm, gemmF, Mat.T, op] <;>
     (congr 2; apply sumTo_congr; intro l _; ring)
+
+/-- gemv: `SWAP_TRANS` with `m = size2, n = size1` computes `alpha * op(A) x + beta * y`. -/
+theorem blas_rowmajor_gemv (t : Trans) (al be : Rat) (A : Mat) (x y : Nat → Rat) (i : Nat) :
+    fffGemv t al A x be y i =
+      al * sumTo (match t with | .N => A.c | .T => A.r) (fun l => (op t A).get i l * x l) + be * y i := by
+  cases t <;> simp [fffGemv, gemvF, Trans.swap, Mat.T, op]
+
+/-- symm: `SWAP_SIDE`, `SWAP_UPLO` compute `alpha * sym(A) * B + beta * C` (Left) or
+    `alpha * B * sym(A) + beta * C` (Right) with the triangle named by the caller's `Uplo`. -/
+theorem blas_rowmajor_symm (s : Side) (u : Uplo) (al be : Rat) (A B C : Mat) (i j : Nat) :
+    (fffSymm s u al A B be C).get i j =
+      match s with
+      | .L => al * sumTo C.r (fun l => (symOf u A).get i l * B.get l j) + be * C.get i j
+      | .R => al * sumTo C.c (fun l => B.get i l * (symOf u A).get l j) + be * C.get i j := by
+  cases s <;> cases u <;>
+    simp only [fffSymm, symmF, Side.swap, Uplo.swap, Mat.T, symOf, inTri, decide_eq_true_eq] <;>
+    (congr 2; apply sumTo_congr; intro l _; split_ifs <;> ring)
+
+/-- trmm: side and uplo swapped, transpose and diag kept: `alpha * op(tri(A)) * B` (Left),
+    `alpha * B * op(tri(A))` (Right), for all 16 flag combinations. -/
+theorem blas_rowmajor_trmm (s : Side) (u : Uplo) (t : Trans) (d : Diag) (al : Rat) (A B : Mat) (i j : Nat) :
+    (fffTrmm s u t d al A B).get i j =
+      match s with
+      | .L => al * sumTo B.r (fun l => (op t (triOf u d A)).get i l * B.get l j)
+      | .R => al * sumTo B.c (fun l => B.get i l * (op t (triOf u d A)).get l j) := by
+  cases s <;> cases u <;> cases t <;> cases d <;>
+    simp only [fffTrmm, trmmF, Side.swap, Uplo.swap, Mat.T, triOf, inTri, op, decide_eq_true_eq] <;>
+    (congr 1; apply sumTo_congr; intro l _; split_ifs <;> first | ring1 | (subst_vars; ring1) | (exfalso; omega))
+
+/-- trsm: if the column-major routine leaves in `B` the solution `X` of *its* triangular system
+    (swapped side and uplo, transposed operands), then `Xᵀ` — what the caller reads back in
+    row-major order — solves the caller's system `op(tri(A)) X = alpha B` (Left) /
+    `X op(tri(A)) = alpha B` (Right). -/
+theorem blas_rowmajor_trsm (s : Side) (u : Uplo) (t : Trans) (d : Diag) (al : Rat) (A B X : Mat)
+    (h : IsTrsmF s.swap u.swap t d B.c B.r al A.T B.T X) :
+    match s with
+    | .L => ∀ i j, i < B.r → j < B.c →
+        sumTo B.r (fun l => (op t (triOf u d A)).get i l * X.T.get l j) = al * B.get i j
+    | .R => ∀ i j, i < B.r → j < B.c →
+        sumTo B.c (fun l => X.T.get i l * (op t (triOf u d A)).get l j) = al * B.get i j := by
+  cases s <;> cases u <;> cases t <;> cases d <;>
+    simp only [IsTrsmF, Side.swap, Uplo.swap, Mat.T, triOf, inTri, op, decide_eq_true_eq] at h ⊢ <;>
+    (intro i j hi hj; rw [← h j i hj hi]; apply sumTo_congr; intro l _;
+     split_ifs <;> first | ring1 | (subst_vars; ring1) | (exfalso; omega))
+
+/-- syrk on a square `A` (the only shape the wrapper's `k = A->size1 / A->size2` choice and the
+    Python binding accept): inside the caller's triangle `alpha * op(A) op(A)ᵀ + beta * C`,
+    outside it `C` is untouched. -/
+theorem blas_rowmajor_syrk (u : Uplo) (t : Trans) (al be : Rat) (A C : Mat) (i j : Nat)
+    (hsq : A.r = A.c) :
+    (fffSyrk u t al A be C).get i j =
+      if inTri u i j then
+        al * sumTo A.c (fun l => (op t A).get i l * (op t A).get j l) + be * C.get i j
+      else C.get i j := by
+  cases u <;> cases t <;>
+    simp only [fffSyrk, syrkF, Uplo.swap, Trans.swap, Mat.T, inTri, op, hsq, decide_eq_true_eq] <;>
+    (split_ifs <;> first | rfl | (congr 2; apply sumTo_congr; intro l _; ring))
+
+/-! ## Cubic B-spline sampling -/
+
+/-- `mirror_index_in_range`: every grid coordinate is reflected into `[0, ddim]`. -/
+theorem mirror_index_in_range (x : Int) (ddim : Nat) : mirroredPosition x ddim ≤ ddim := by
+  unfold mirroredPosition
+  split_ifs with h0
+  · omega
+  · have hp : (0 : Int) < 2 * (ddim : Int) := by omega
+    have h1 := Int.emod_nonneg x (ne_of_gt hp)
+    have h2 := Int.emod_lt_of_pos x hp
+    simp only
+    split_ifs <;> omega
+
+/-- grid points are fixed by the reflection (so the centre tap reads the point's own coefficient). -/
+theorem mirror_fixes_grid (i ddim : Nat) (h : i ≤ ddim) : mirroredPosition (i : Int) ddim = i := by
+  unfold mirroredPosition
+  split_ifs with h0
+  · omega
+  · have hp : (0 : Int) < 2 * (ddim : Int) := by omega
+    have : (i : Int) % (2 * (ddim : Int)) = i := Int.emod_eq_of_lt (by omega) (by omega)
+    simp only [this]
+    split_ifs <;> omega
+
+/-- the first neighbour outside the grid on either side is the first one inside
+    (whole-sample symmetry), whenever the axis has at least two points. -/
+theorem mirror_neighbours (ddim : Nat) (h : 1 ≤ ddim) :
+    mirroredPosition (-1) ddim = 1 ∧ mirroredPosition ((ddim : Int) + 1) ddim = ddim - 1 := by
+  unfold mirroredPosition
+  have h0 : ¬ ddim = 0 := by omega
+  simp only [h0, if_false]
+  constructor
+  · have : (-1 : Int) % (2 * (ddim : Int)) = 2 * (ddim : Int) - 1 := by
+      rw [Int.emod_def]
+      have : (-1 : Int) / (2 * (ddim : Int)) = -1 := by
+        apply Int.ediv_eq_neg_one_of_neg_of_le <;> omega
+      rw [this]; ring
+    rw [this]; split_ifs <;> omega
+  · rcases Nat.lt_or_ge 1 ddim with h1 | h1
+    · have : ((ddim : Int) + 1) % (2 * (ddim : Int)) = ddim + 1 := Int.emod_eq_of_lt (by omega) (by omega)
+      rw [this]; split_ifs <;> omega
+    · have hd : ddim = 1 := by omega
+      subst hd; decide
+
+/-- `bspline_weights_partition_unity`: strictly between grid points the four taps of the window
+    sum to one when the constant is `2/3`; with the constant written in the C source the sum is
+    off by twice its error (two taps take the central branch). -/
+theorem bspline_weights_partition_unity (c23 t : Rat) (ht : 0 < t) (h1 : t < 1) :
+    basis c23 (t + 1) + basis c23 t + basis c23 (t - 1) + basis c23 (t - 2) = 1 + 2 * (c23 - 2 / 3) := by
+  have e1 : absR (t + 1) = t + 1 := by unfold absR; rw [if_pos (by linarith)]
+  have e3 : absR (t - 1) = 1 - t := by unfold absR; rw [if_neg (by linarith)]; ring
+  have e4 : absR (t - 2) = 2 - t := by unfold absR; rw [if_neg (by linarith)]; ring
+  have e2 : absR t = t := by unfold absR; rw [if_pos ht]
+  simp only [basis, e1, e2, e3, e4]
+  rw [if_neg (by linarith), if_neg (by linarith), if_neg (by linarith), if_pos h1,
+      if_neg (by linarith), if_pos (by linarith), if_neg (by linarith), if_neg (by linarith)]
+  ring
+
+/-- at a grid point one tap takes the central branch: the weights sum to `1 + (c23 - 2/3)`. -/
+theorem bspline_weights_sum_at_grid (c23 : Rat) :
+    basis c23 1 + basis c23 0 + basis c23 (-1) + basis c23 (-2) = 1 + (c23 - 2 / 3) := by
+  simp [basis, absR]; norm_num; ring
+
+/-- at an integer abscissa the window has weights `1/6, 2/3, 1/6, 0`. -/
+theorem bspline_weights_at_grid :
+    basis (2 / 3) 1 = 1 / 6 ∧ basis (2 / 3) 0 = 2 / 3 ∧ basis (2 / 3) (-1) = 1 / 6 ∧ basis (2 / 3) (-2) = 0 := by
+  refine ⟨?_, ?_, ?_, ?_⟩ <;> simp [basis, absR] <;> norm_num
+
+/-! ## Permutations -/
+
+/-- `fff_permutation` returns a permutation of `0 … n-1` for every magic number. -/
+theorem permutation_valid (n magic : Nat) : (permutation n magic).Perm (List.range n) :=
+  permAux_perm n (List.range n) magic (by simp)
+
+/-! ## Order statistics -/
+
+/-- the selection specification is the ascending rearrangement of the fibre -/
+theorem sortLe_spec (x : List Rat) : (sortLe x).Perm x ∧ (sortLe x).Pairwise (· ≤ ·) :=
+  ⟨sortLe_perm x, sortLe_sorted x⟩
+
+/-- the quantile depends on the fibre's values only, not on the order in which the strided
+    view presents them (layout invariance). -/
+theorem quantile_perm_invariant (x y : List Rat) (h : x.Perm y) (hlen : 2 ≤ x.length) (r : Rat) (interp : Bool) :
+    quantile x r interp = quantile y r interp := by
+  have hl := h.length_eq
+  have hs : sortLe x = sortLe y := sortLe_eq_of_perm h
+  unfold quantile
+  have h1 : ¬ x.length = 0 := by omega
+  have h2 : ¬ x.length = 1 := by omega
+  have h3 : ¬ y.length = 0 := by omega
+  have h4 : ¬ y.length = 1 := by omega
+  simp only [h1, h2, h3, h4, if_false, hs, hl]
+
+/-- ratio 0 gives the minimum, with or without interpolation -/
+theorem quantile_ratio_zero (x : List Rat) (hlen : 2 ≤ x.length) (interp : Bool) :
+    quantile x 0 interp = some (.val (nth (sortLe x) 0)) := by
+  have h1 : ¬ x.length = 0 := by omega
+  have h2 : ¬ x.length = 1 := by omega
+  have h0 : ¬ 0 = x.length := by omega
+  cases interp <;> simp [quantile, h1, h2, h0, floorNat, ceilNat]
+
+/-- ratio 1 without interpolation is `+∞` (no sample index `≥ n`) -/
+theorem quantile_ratio_one_noninterp (x : List Rat) (hlen : 2 ≤ x.length) :
+    quantile x 1 false = some .posInf := by
+  have h1 : ¬ x.length = 0 := by omega
+  have h2 : ¬ x.length = 1 := by omega
+  have hf : floorNat ((x.length : Nat) : Rat) = x.length := by
+    simp [floorNat]
+  simp [quantile, h1, h2, ceilNat, hf]
+
+/-! ## Non-vacuity -/
+
+example : quantile [3, 1, 2, 5] (1 / 2) true = some (.val (5 / 2)) := by decide +kernel
+example : quantile [0, 1] (1 / 2) true = some (.val (1 / 2)) := by decide +kernel
+example : permutation 4 5 = [1, 2, 0, 3] := by decide +kernel
+example : mirroredPosition 3 1 = 1 ∧ mirroredPosition (-1) 1 = 1 := by decide +kernel
+/-- the wrapper's choice of `k` is wrong for a non-square `A` (not reachable from Python):
+    `A` is 1×2, `A Aᵀ = [5]`, the wrapper sums one term only. -/
+example : (fffSyrk .U .N 1 ⟨1, 2, fun _ j => if j = 0 then 1 else 2⟩ 0 ⟨1, 1, fun _ _ => 0⟩).get 0 0 = 1 := by
+  decide +kernel
 
 end NipyVerif.C16
